@@ -6,6 +6,9 @@
     util._val_to_num              -> gen_val_to_num          (the ORDER of the guesses for untyped directory texts; C08 drill)
     writer.partition_on_columns   -> gen_dir_path / gen_relname   (directory naming only: the `path = join_path(...)` and
                                                                    `relname = join_path(path, partname)` statements)
+    util.val_from_meta            -> gen_bool_true_texts     (inventory: the texts the bool branch accepts as True)
+    util.metadata_from_many       -> gen_fast_rel            (fast path only: the relative path `f[len(basepath):].lstrip("/")` stored in
+                                                              the first chunk of every row group; both occurrences must agree)
     api._path_to_cats             -> gen_hive_hits / gen_drill_hits / gen_add_hit / gen_final_cats / gen_path_to_cats
                                                              (the loop skeleton is checked against a template; the hit extraction, the
                                                               body of the inner loop - by symbolic execution over the four containers
@@ -161,7 +164,7 @@ class Fn:
         v, tv = self.E(e.value, env)
         s = e.slice
         if isinstance(s, ast.Slice) and s.step is None:
-            if not tv.startswith("list "):
+            if not (tv.startswith("list ") or tv == "str"):
                 _bad(e, "slice of %s" % tv)
             if s.lower is None and s.upper is not None:
                 if isinstance(s.upper, ast.UnaryOp) and isinstance(s.upper.op, ast.USub) and isinstance(s.upper.operand, ast.Constant) \
@@ -218,7 +221,9 @@ class Fn:
                 return "(py_distinct_count %s)" % a, "nat"
             if f.id == "len" and len(e.args) == 1:
                 a, ta = self.E(e.args[0], env)
-                if not ta.startswith("list "):
+                # len / slices of a text count UTF-8 bytes in the model and code points in Python: the translated uses cut a text
+                # after a prefix of itself (f[len(basepath):] with f = basepath + ...), where the two agree
+                if not (ta.startswith("list ") or ta == "str"):
                     _bad(e, "len of %s" % ta)
                 return "(length %s)" % a, "nat"
             if f.id == "max" and len(e.args) == 1:
@@ -269,6 +274,12 @@ class Fn:
                 if ta != "str":
                     _bad(e, "split of %s" % ta)
                 return "(split_on %s %s)" % (chr_const(e.args[0].value, e), a), "list str"
+            if f.attr == "lstrip" and len(e.args) == 1 and isinstance(e.args[0], ast.Constant) and isinstance(e.args[0].value, str) \
+                    and len(e.args[0].value) == 1:
+                a, ta = self.E(f.value, env)
+                if ta != "str":
+                    _bad(e, "lstrip of %s" % ta)
+                return "(drop_while (Ascii.eqb %s) %s)" % (chr_const(e.args[0].value, e), a), "str"
             if f.attr == "lower" and not e.args:
                 a, ta = self.E(f.value, env)
                 if ta != "str":
@@ -806,6 +817,47 @@ def translate(util_src, writer_src, api_src=None):
         raise Unsupported("_strip_path_tail element of type %s" % ty)
     out.append("(* util._strip_path_tail, line %d: the element of the set comprehension *)\n"
                "Definition gen_strip_tail (%s : str) : str :=\n  %s.\n\n" % (fd.lineno, ident(var), t))
+
+    # ---- util.val_from_meta: inventories (the dispatch itself is numpy's: hand model + correspondence)
+    fd = find_def(ut, "val_from_meta")
+    params(fd, ["x", "meta"])
+    lit = None
+    for n in ast.walk(fd):
+        if isinstance(n, ast.If) and same_expr(n.test, "t == 'bool'") and len(n.body) == 1 and isinstance(n.body[0], ast.Return) \
+                and isinstance(n.body[0].value, ast.Compare) and len(n.body[0].value.ops) == 1 and isinstance(n.body[0].value.ops[0], ast.In) \
+                and same_expr(n.body[0].value.left, "x") and isinstance(n.body[0].value.comparators[0], ast.List):
+            lit = n.body[0].value.comparators[0]
+    if lit is None:
+        raise Unsupported("val_from_meta: `if t == 'bool': return x in [...]` not found")
+    texts = []
+    for e in lit.elts:       # x is a text: only the text members can be equal to it (True == 1 == "1" is false for a str)
+        if not isinstance(e, ast.Constant) or not isinstance(e.value, (str, bool, int)):
+            _bad(e, "member of the bool literal list")
+        if isinstance(e.value, str):
+            texts.append(str_const(e.value, e))
+    out.append("(* util.val_from_meta, line %d: the texts the bool branch reads as True *)\n"
+               "Definition gen_bool_true_texts : list str := [%s].\n\n" % (lit.lineno, "; ".join(texts)))
+
+    # ---- util.metadata_from_many, fast path: rg.columns[0].file_path = <f>[len(basepath):].lstrip("/")
+    fd = find_def(ut, "metadata_from_many")
+    rels = []
+    for n in ast.walk(fd):
+        if isinstance(n, ast.Assign) and len(n.targets) == 1 and ast.unparse(n.targets[0]) == "rg.columns[0].file_path":
+            if not (isinstance(n.value, ast.Call) and isinstance(n.value.func, ast.Attribute) and n.value.func.attr == "lstrip"):
+                _bad(n, "first-chunk path of the fast path that is not of the form f[len(basepath):].lstrip('/')")
+            names = sorted({x.id for x in ast.walk(n.value) if isinstance(x, ast.Name)} - {"len", "basepath"})
+            if len(names) != 1:
+                _bad(n, "relative path of the fast path")
+            class Ren(ast.NodeTransformer):
+                def visit_Name(self, node, old=names[0]):
+                    return ast.copy_location(ast.Name(id="f", ctx=node.ctx), node) if node.id == old else node
+            import copy
+            t, ty = Fn("metadata_from_many", {}).E(Ren().visit(copy.deepcopy(n.value)), {"basepath": "str", "f": "str"})
+            rels.append((t, ty, n.lineno))
+    if not rels or any(r[1] != "str" for r in rels) or len({r[0] for r in rels}) != 1:
+        raise Unsupported("metadata_from_many: the fast path's relative-path expressions not found or not all alike: %r" % (rels,))
+    out.append("(* util.metadata_from_many, lines %s: first-chunk path of a row group of file f on the footer fast path *)\n"
+               "Definition gen_fast_rel (basepath f : str) : str :=\n  %s.\n\n" % (", ".join(str(r[2]) for r in rels), rels[0][0]))
 
     # ---- the functions over partition values live in a section over the external conversions
     out.append("Section GenValues.\n  Variables F T D : Type.\n  Variable show_float : F -> str.\n  Variable show_time_iso : T -> str.\n"
